@@ -47,6 +47,7 @@ type c02TCase struct {
 	EditStr  string       `json:"edit_text"`
 	Policy   string       `json:"read_policy"`
 	Short    []int        `json:"short_reads_underneath"`
+	EOFJoin  bool         `json:"end_of_stream_together_with_the_last_segment,omitempty"`
 	Outcome  string       `json:"outcome,omitempty"`
 }
 
@@ -99,6 +100,7 @@ func TestVerifC02NoiseTamper(t *testing.T) {
 		pols   []memconn.Policy
 		shorts [][]int
 		dirs   []string
+		join   bool // the end of the (edited) stream arrives in the same Read call as its last segment
 	}
 	// the policies steer the edited frame into each reader path: r=1 / r=16 queue it (Bp), r=pending copies
 	// it out of the pooled buffer completely (Bf), r=pending+16 and r=70000 decrypt in the caller's buffer (D)
@@ -108,19 +110,23 @@ func TestVerifC02NoiseTamper(t *testing.T) {
 	// decrypts it), or such a Read comes right after the frame before it was consumed
 	pZero := []memconn.Policy{memconn.Fixed(16).WithZeros(1), memconn.Rel(0).WithZeros(0, 1)}
 	plans := []plan{
-		{small, "noise", pAll, [][]int{{0}, {1}}, []string{"i2r"}},
-		{small, "noise", []memconn.Policy{pAll[2], pAll[4]}, [][]int{{0}}, []string{"r2i"}},
-		{big, "noise", pBig, [][]int{{0}, {7}}, []string{"i2r"}},
-		{small, "psk>noise", []memconn.Policy{pAll[2], pAll[4]}, [][]int{{0}, {1}}, []string{"i2r"}},
-		{small, "noise", pZero, [][]int{{0}}, []string{"i2r"}},
+		{small, "noise", pAll, [][]int{{0}, {1}}, []string{"i2r"}, false},
+		{small, "noise", []memconn.Policy{pAll[2], pAll[4]}, [][]int{{0}}, []string{"r2i"}, false},
+		{big, "noise", pBig, [][]int{{0}, {7}}, []string{"i2r"}, false},
+		{small, "psk>noise", []memconn.Policy{pAll[2], pAll[4]}, [][]int{{0}, {1}}, []string{"i2r"}, false},
+		{small, "noise", pZero, [][]int{{0}}, []string{"i2r"}, false},
+		// the end of the edited stream (after a cut: inside a frame) arrives together with its last segment
+		{small, "noise", []memconn.Policy{pAll[1], pAll[2]}, [][]int{{0}}, []string{"i2r"}, true},
 	}
 	if thorough {
 		plans = plans[:4]
-		plans[0] = plan{small, "noise", append(append([]memconn.Policy{}, pAll...), pZero...), [][]int{{0}, {1}, {7}}, []string{"i2r", "r2i"}}
+		plans[0] = plan{small, "noise", append(append([]memconn.Policy{}, pAll...), pZero...), [][]int{{0}, {1}, {7}}, []string{"i2r", "r2i"}, false}
 		plans = append(plans[:1], plans[2:]...)
-		plans[1] = plan{big, "noise", append(append([]memconn.Policy{}, pBig...), pAll[0], pAll[3], memconn.Fixed(4096).WithZeros(1)), [][]int{{0}, {1}, {7}, {4096}}, []string{"i2r", "r2i"}}
-		plans[2] = plan{small, "psk>noise", pAll, [][]int{{0}, {1}, {7}}, []string{"i2r", "r2i"}}
-		plans = append(plans, plan{big, "psk>noise", pBig, [][]int{{0}, {7}}, []string{"i2r"}})
+		plans[1] = plan{big, "noise", append(append([]memconn.Policy{}, pBig...), pAll[0], pAll[3], memconn.Fixed(4096).WithZeros(1)), [][]int{{0}, {1}, {7}, {4096}}, []string{"i2r", "r2i"}, false}
+		plans[2] = plan{small, "psk>noise", pAll, [][]int{{0}, {1}, {7}}, []string{"i2r", "r2i"}, false}
+		plans = append(plans, plan{big, "psk>noise", pBig, [][]int{{0}, {7}}, []string{"i2r"}, false},
+			plan{small, "noise", pAll, [][]int{{0}, {7}}, []string{"i2r"}, true},
+			plan{small, "psk>noise", []memconn.Policy{pAll[2], pAll[4]}, [][]int{{0}}, []string{"i2r"}, true})
 	}
 	var desc []string
 	for _, p := range plans {
@@ -128,7 +134,7 @@ func TestVerifC02NoiseTamper(t *testing.T) {
 		for _, q := range p.pols {
 			pn = append(pn, q.Name)
 		}
-		desc = append(desc, fmt.Sprintf("%s/%s writes=%v policies=%v short_reads=%v dirs=%v", p.stack, p.sc.Name, p.sc.Writes, pn, p.shorts, p.dirs))
+		desc = append(desc, fmt.Sprintf("%s/%s writes=%v policies=%v short_reads=%v dirs=%v end_of_stream_together_with_the_last_segment=%v", p.stack, p.sc.Name, p.sc.Writes, pn, p.shorts, p.dirs, p.join))
 	}
 	r.Bounds["plans"] = desc
 	r.Bounds["edits"] = "per frame: XOR 0x01 and 0x80 at every byte (frames <= 64 bytes) or at the first and last 48 bytes (larger frames; thorough: also every 4099th byte); drop; duplicate; swap with next; truncate to k bytes with the rest following and cut the stream after k bytes, k = every length (small frames) or {0,1,2,3,17,18,19,len-17,len-16,len-1,len}"
@@ -139,7 +145,7 @@ func TestVerifC02NoiseTamper(t *testing.T) {
 		L := c02Sum(p.sc.Writes)
 		payload := memconn.Pattern(0x7A3, L)
 		// probe run: learn the frame sizes on the wire (ciphertext differs per session, sizes do not)
-		probe := memconn.RunTamper(t, c02Setup(ti, tr, p.stack, "i2r", []int{0}, c02Frames(p.sc.Writes), false), payload, p.sc.Writes, pAll[4], c02Cut(p.stack), memconn.Edit{Kind: "none"}, true, &b.Buf)
+		probe := memconn.RunTamper(t, c02Setup(ti, tr, p.stack, "i2r", []int{0}, c02Frames(p.sc.Writes), false, false), payload, p.sc.Writes, pAll[4], c02Cut(p.stack), memconn.Edit{Kind: "none"}, true, &b.Buf)
 		if probe.Frames == nil {
 			r.Cap("infrastructure: probe run of %s/%s captured nothing (%s %s)", p.stack, p.sc.Name, probe.Infra, probe.Panic)
 			continue
@@ -147,7 +153,7 @@ func TestVerifC02NoiseTamper(t *testing.T) {
 		edits := memconn.Edits(probe.Frames, LengthPrefixLength, thorough)
 		for _, dir := range p.dirs {
 			for ei, e := range edits {
-				if !b.Mine(p.stack, p.sc.Name, dir, ei) {
+				if !b.Mine(p.stack, p.sc.Name, dir, ei, p.join) {
 					continue
 				}
 				for _, pol := range p.pols {
@@ -155,13 +161,13 @@ func TestVerifC02NoiseTamper(t *testing.T) {
 						if b.Over() {
 							return
 						}
-						c := c02TCase{Stack: p.stack, Dir: dir, Scenario: p.sc.Name, Writes: p.sc.Writes, Edit: e, EditStr: e.String(), Policy: pol.Name, Short: short}
-						res := memconn.RunTamper(t, c02Setup(ti, tr, p.stack, dir, short, c02Frames(p.sc.Writes), false), payload, p.sc.Writes, pol, c02Cut(p.stack), e, false, &b.Buf)
+						c := c02TCase{Stack: p.stack, Dir: dir, Scenario: p.sc.Name, Writes: p.sc.Writes, Edit: e, EditStr: e.String(), Policy: pol.Name, Short: short, EOFJoin: p.join}
+						res := memconn.RunTamper(t, c02Setup(ti, tr, p.stack, dir, short, c02Frames(p.sc.Writes), false, p.join), payload, p.sc.Writes, pol, c02Cut(p.stack), e, false, &b.Buf)
 						if cls := b.Tamper(p.stack, res, e, L, c); cls != "" && res.Changed {
 							c.Outcome = cls
 							// the error class is left out of the key: after a mis-framing edit under the PSK layer it
 							// depends on (random) key stream bytes; the verdict kind does not
-							b.Distinct(c, p.stack, p.sc.Name, dir, e, res.Truncation)
+							b.Distinct(c, p.stack, p.sc.Name, dir, e, res.Truncation, p.join)
 						}
 					}
 				}
